@@ -36,7 +36,11 @@ func sqlWindowClause(c Case) string {
 
 func execSQLWindowOnce(c Case) ([][]string, bool) {
 	sql := "SELECT k, count(*) AS c, sum(id) AS s, collect(id) AS ids, window_start() AS ws, window_end() AS we FROM stream GROUP BY k, " +
-		sqlWindowClause(c) + fmt.Sprintf(" WITH (TIMESTAMP='ts', TIMEUNIT='ms', MAXOUTOFORDERNESS='%dms')", cfgInt(c, "ooo", 0))
+		sqlWindowClause(c) + fmt.Sprintf(" WITH (TIMESTAMP='ts', TIMEUNIT='ms', MAXOUTOFORDERNESS='%dms'", cfgInt(c, "ooo", 0))
+	if l := cfgInt(c, "late", 0); l > 0 {
+		sql += fmt.Sprintf(", ALLOWEDLATENESS='%dms'", l)
+	}
+	sql += ")"
 	s := streamsql.New(streamsql.WithDiscardLog())
 	defer s.Stop()
 	if err := s.Execute(sql); err != nil {
